@@ -485,3 +485,28 @@ def deep_loop_fork_shapes():
         ast = Seq((ev(), Fork(f1, (Seq((ev(), lp)), Seq((ev(), sib)))), ev()))
         out.append((f"sibling-{f1}-{f2}-{f3}", ast))
     return out
+
+
+def bunched_fork_shapes():
+    """Forks nested *directly* (a branch that starts with a fork - outside
+    fragment F, present in the corpus as "bunched" logic):
+    A; OUTER{ INNER{B|C} [; X] | D [| E] }; Z  for OUTER != INNER."""
+    import itertools
+    out = []
+    for outer, inner, nalt, tail in itertools.product(
+            ("AND", "OR", "XOR"), ("AND", "OR", "XOR"), (2, 3), (0, 1)):
+        if outer == inner:
+            continue
+        n = [0]
+
+        def ev():
+            n[0] += 1
+            return Ev(f"E{n[0]}")
+        a = ev()
+        first = [Fork(inner, (Seq((ev(),)), Seq((ev(),))))]
+        if tail:
+            first.append(ev())
+        alts = [Seq(tuple(first))] + [Seq((ev(),)) for _ in range(nalt - 1)]
+        out.append((f"{outer}-{inner}-{nalt}-tail{tail}",
+                    Seq((a, Fork(outer, tuple(alts)), ev()))))
+    return out
